@@ -342,11 +342,98 @@ fn enumerate(c: &mut Case, scale: Scale) {
     c.l.count("base_connections_fully_enumerated");
 }
 
+/// Connections with full-size records (content 65535, padding up to 255): faults at the seams of
+/// every record (around its header, the end of its content, the end of its padding) rather than
+/// at every offset. A handler that returns while such a record's header is parsed but its payload
+/// is not leaves `Request::close` with the largest possible amount to skip.
+fn enumerate_big(c: &mut Case, scale: Scale) {
+    let mut found = None;
+    for _ in 0..60 {
+        let case = conn::gen_conn(&mut c.rng, &GenOpts { max_requests: 2, extra_pct: 15, big: true, keep_conn_pct: 80, no_begin_extras: false });
+        if case.wire.len() > 600_000 {
+            continue;
+        }
+        let (recs, _) = wire::scan(&case.wire);
+        if recs.iter().any(|r| r.len() + usize::from(r.padding) >= 65_536) {
+            found = Some((case, recs));
+            break;
+        }
+    }
+    let Some((mut case, recs)) = found else {
+        c.l.count("big_bases_without_full_record");
+        return;
+    };
+    if c.rng.chance(1, 2) {
+        for s in &mut case.scripts {
+            s.propagate = true;
+        }
+    }
+    // two thirds of the bases: every handler reads its first stream to the end, so that it is the
+    // handler's own read that meets the fault right behind the header of the full-size record
+    if c.rng.chance(2, 3) {
+        for s in &mut case.scripts {
+            s.ops = vec![crate::handler::Op::ReadToEnd];
+        }
+        c.l.count("big_record_bases_with_reading_handlers");
+    }
+    let Ok(model) = conn_model(&case) else { return };
+    let mut offsets = Vec::new();
+    for r in &recs {
+        for o in [r.off, r.off + 1, r.off + 7, r.off + 8, r.off + 9, r.content.end.saturating_sub(1), r.content.end, r.end.saturating_sub(1), r.end] {
+            if o <= case.wire.len() {
+                offsets.push(o);
+            }
+        }
+    }
+    offsets.sort_unstable();
+    offsets.dedup();
+    let stride = if scale == Scale::Miri { 23 } else { 1 };
+    let n_patterns = if scale == Scale::Full { 2 } else { 1 };
+    for pat in 0..n_patterns {
+        let mut cs = case.clone();
+        cs.beh = match pat {
+            0 => Behaviour::ideal(),
+            _ => Behaviour::random(&mut c.rng),
+        };
+        cs.max_piece = *c.rng.pick(&[4096usize, 100_000, usize::MAX]);
+        let seed = c.rng.next_u64();
+        let clean = run_fault(c, &cs, &model, seed, Fault::None);
+        if !clean.ok {
+            return;
+        }
+        for &o in offsets.iter().step_by(stride) {
+            if !run_fault(c, &cs, &model, seed, Fault::EofAt(o)).ok {
+                return;
+            }
+            c.l.count("big_record_seam_eof_offsets");
+        }
+        let kinds = [ErrorKind::BrokenPipe, ErrorKind::ConnectionAborted, ErrorKind::Interrupted, ErrorKind::Other];
+        let rstep = (clean.read_calls / 40).max(1) * stride as u64;
+        let mut i = 1;
+        while i <= clean.read_calls + 1 {
+            let k = kinds[(i as usize) % kinds.len()];
+            if !run_fault(c, &cs, &model, seed, Fault::ReadErr(i, k)).ok {
+                return;
+            }
+            c.l.count("big_record_read_error_points");
+            i += rstep;
+        }
+    }
+    c.l.count("big_record_bases_enumerated");
+}
+
 pub fn run(ctx: &Ctx, evidence: Option<&PathBuf>) -> i32 {
     let scale = ctx.scale;
     ctx.run_fixed("directed", if ctx.miri() { 1 } else { ctx.dn(32) }, |c| enumerate(c, scale));
     let n = ctx.size3(200, 10_000, 1);
     ctx.run_cases("fault-points", n, |c| enumerate(c, scale));
+    // (not under Miri: one such connection is several hundred KB through the interpreter)
+    if !ctx.miri() {
+        let nb = ctx.dn(ctx.size3(16, 300, 1));
+        ctx.run_cases("big-record-seams", nb, |c| enumerate_big(c, scale));
+        ctx.gate("big_record_seam_eof_offsets", 100);
+        ctx.gate("big_record_bases_with_reading_handlers", 1);
+    }
     ctx.gate("eof_offsets", 5_000);
     ctx.gate("read_error_points", 500);
     ctx.gate("write_fault_points", 500);
@@ -362,6 +449,7 @@ pub fn run(ctx: &Ctx, evidence: Option<&PathBuf>) -> i32 {
          a clean run, then EOF injected at EVERY byte offset 0..N, a read error (BrokenPipe / ConnectionReset / TimedOut / Other) at every read call index, a write error and a zero-length write at every write call index (call indices of the clean run with the same seeds; capped at ~400 points per class for very chatty runs). \
          Oracle: Token::run returns (quiescence with the task unfinished = hang; >2000 transport calls after a terminal result unwinds as 'spin'); no panic; the output decodes as a prefix of a well-formed record sequence; with all handlers propagating, zero bytes are written after the failed write; \
          handler invocations <= completely delivered preambles; the requests that were answered satisfy the full C07 oracle; under EOF every completely delivered request along the keep-conn chain is answered; the handler cut off by the fault read only a prefix of the delivered bytes, never got a successful empty read for a stream whose end had not arrived, and saw only UnexpectedEof / the injected kind / WriteZero. \
+         big-record-seams: connections of 1..2 requests that contain at least one record with content + padding >= 65536, EOF at the seams of every record (start, inside and end of the header, first payload byte, end of content, end of padding) and read errors at ~40 evenly spaced read calls, same oracle. \
          distinct_nontrivial = distinct (connection, readiness pattern, fault point) executions that were judged (set); distinct_states_observed = distinct (executor interleaving, fault phase).",
         &["spin is a bounded-call criterion inside the mock transport", "step budget exhaustion is counted, not judged"],
         false,
